@@ -201,6 +201,11 @@ func H_Block() {
 	nd.Assert("C02.zero-sum-paying", post.total(denomPay).EQ(pre.total(denomPay)))
 	nd.Assert("C02.zero-sum-fee", post.total(denomFee).EQ(pre.total(denomFee)))
 
+	// ---- C02: once settled, nothing is left in the selling and paying escrows (whichever settlement branch ran) ----
+	if justSettled {
+		nd.Assert("C02.nothing-left-in-escrow-after-settlement", nd.And(post.get(st.sellingAddr(), denomSell).IsZero(), post.get(st.payingAddr(), denomPay).IsZero()))
+	}
+
 	// ---- C09 (a): split of the proceeds at settlement ----
 	if justSettled {
 		qs := queuesOf(e, 0)
@@ -283,6 +288,7 @@ func H_Block() {
 		}
 		nd.Assert("C09.auctioneer-receives-due-instalments", post.get(auctioneer, denomPay).Sub(pre.get(auctioneer, denomPay)).EQ(paid))
 		nd.Assert("C09.finished-iff-all-released", (ps == types.AuctionStatusFinished) == allReleased)
+		nd.Assert("C08.finishes-when-last-instalment-released", (ps == types.AuctionStatusFinished) == allReleased)
 	}
 
 	// ---- C13: extension rule ----
